@@ -75,7 +75,14 @@ func (w *c13world) build() (*c13live, string) {
 			if err = json.Unmarshal([]byte(s.Text), &sch); err != nil {
 				return
 			}
-			res, err = sch.Resolve(&jsonschema.ResolveOptions{BaseURI: s.Base, Loader: w.loaderFor(s)})
+			res, err = sch.Resolve(&jsonschema.ResolveOptions{BaseURI: s.Base, Loader: w.loaderFor(s), ValidateDefaults: s.Kind == "defaults"})
+			if err != nil && s.Kind == "defaults" {
+				// some default does not validate: resolve without the option
+				sch = jsonschema.Schema{}
+				if err = json.Unmarshal([]byte(s.Text), &sch); err == nil {
+					res, err = sch.Resolve(nil)
+				}
+			}
 		})
 		w.c.CheckOp("Resolve (building the shared values)", r)
 		if r.Panicked {
